@@ -2,8 +2,8 @@ SPEC = {
     "id": "C08",
     "components": [
         {"comp": "idle_negotiate", "module": "QV.Model.Lifecycle", "quick": 300, "thorough": 20000},
-        {"comp": "sim_c08", "module": "QV.Sys.MonC08", "quick": 40, "thorough": 2000},
-        {"comp": "sim_c08_model", "module": "QV.Sys.MonLifecycle", "quick": 40, "thorough": 2000},
+        {"comp": "sim_c08", "module": "QV.Sys.MonC08", "quick": 150, "thorough": 2000},
+        {"comp": "sim_c08_model", "module": "QV.Sys.MonLifecycle", "quick": 150, "thorough": 2000},
     ],
     "assumptions": [
         "the lifecycle model takes the PTO, the key/space situation, anti-amplification, the congestion/pacing gate, pending stream events and the classification of every received packet as inputs; the theorems hold for all of them",
